@@ -121,6 +121,25 @@ var rootInitEntrySpec = &decideSpec{
 	ignore: []string{"log", "pkgLog"},
 }
 
+// RootConfig.Initialize: one iteration of the loop over the sub-packages of a recursive package (trace mode)
+var rootInjectEntrySpec = &decideSpec{
+	file: "config/config.go", recv: "RootConfig", fn: "Initialize", lean: "rootInjectEntryEffects", plain: true, loopBody: true, loopOver: "subpkgs",
+	params: "(shouldExclude : Option Bool) (exists_ : Bool)", result: "List String",
+	atoms: map[string]string{
+		"existingSubPkg, exists := c.Packages[subpkg]; exists": "exists_",
+		"fmt.Errorf(\"evaluating `exclude-subpkg-regex` of %s: %w\", recursivePackageName, err)": "[\"error: exclude-subpkg-regex\"]",
+	},
+	calls: map[string]string{"parentPkgConfig.Config.ShouldExcludeSubpkg": "shouldExclude"},
+	trace: map[string]string{
+		"subPkgConfig = existingSubPkg":                                        "sub := existing",
+		"subPkgConfig = NewPackageConfig()":                                    "sub := new",
+		"mergeConfigs(pkgCtx, *parentPkgConfig.Config, subPkgConfig.Config)":   "merge parent config into sub.config",
+		"c.Packages[subpkg] = subPkgConfig":                                    "store sub",
+	},
+	dropArgs: []string{"subpkg"},
+	ignore:   []string{"log", "pkgLog"},
+}
+
 // ---- mergeStringMaps ----
 
 type mapTr struct {
@@ -272,7 +291,7 @@ func init() {
 			g = fmt.Sprintf("/-- translation failed: %s -/\ndef getReplacement : Nat := (show Nat from %s)\n", strings.ReplaceAll(err.Error(), "-/", "- /"), leanStr(err.Error()))
 		}
 		b.WriteString(g + "\n")
-		for _, sp := range []*decideSpec{ifaceInitSpec, ifaceInitEntrySpec, pkgInitEntrySpec, rootInitEntrySpec} {
+		for _, sp := range []*decideSpec{ifaceInitSpec, ifaceInitEntrySpec, pkgInitEntrySpec, rootInitEntrySpec, rootInjectEntrySpec} {
 			d, err := translateDecide(src, sp)
 			if err != nil {
 				d = fmt.Sprintf("/-- translation failed: %s -/\ndef %s %s : %s :=\n  (show Nat from %s)\n", strings.ReplaceAll(err.Error(), "-/", "- /"), sp.lean, sp.params, sp.result, leanStr(err.Error()))
